@@ -280,6 +280,12 @@ func (ip *interposer) CheckTx(req abci.RequestCheckTx) (res abci.ResponseCheckTx
 }
 
 func (ip *interposer) InitChain(req abci.RequestInitChain) (res abci.ResponseInitChain) {
+	// InitChain attempts are numbered like block attempts: a node crashed at InitChain runs it again after its
+	// restart, and a replay must be able to tell the attempt that crashed from the one that went through
+	if ip.r.Tr.attemptsAt == nil {
+		ip.r.Tr.attemptsAt = map[int64]int{}
+	}
+	ip.r.Tr.attemptsAt[0]++
 	ip.at(CInitChain, 0, 0, false)
 	ip.guard("InitChain", func() { res = ip.inner.InitChain(req) })
 	ip.r.Tr.InitVals = ValUpdatesString(res.Validators)
